@@ -466,6 +466,13 @@ def run_model_laws(ctx):
     sig = dict(model=kind)
     wit = lambda **k: dict(basis=prob['basis'], model=kind, **k)  # noqa: E731
     rd = model_rdms(prob)
+    if rng.integers(3) == 0:
+        # basis RDMs stored as integers (ranks, ordinal ratings, binary category models): the weights stay real numbers
+        ib = np.round(prob['basis'] * 4).astype(np.int64)
+        prob = dict(prob, basis=ib.astype(float))
+        rd = RDMs(ib.copy(), pattern_descriptors={'cond': list(prob['labels'])},
+                  rdm_descriptors={'name': [f'b{i}' for i in range(ib.shape[0])]}, dissimilarity_measure='euclidean')
+        sig['basis'] = 'integer'
     if kind == 'ModelFixed':
         rd = model_rdms(prob, prob['basis'][:1])
         m = ModelFixed('f', rd)
